@@ -254,7 +254,8 @@ theorem C15_struct_verdict_pane (hT : Facts.catches .paneStructHookTry = some .a
       (∃ f ∈ info.fields, f.init = true ∧ f.hasDefault = false ∧
         v.mapItems.any (fun p => namesField info p.1 f.name) = false) ∨
       (∃ all e, fillDefaults E (Facts.structDefaultCalled == some true) info.fields
-          (structSpec info fs v.mapItems) = some all ∧ runHook E info all = .error e) :=
+          (structSpec info fs v.mapItems) = some all ∧
+        runHook E info all ((structSpec info fs v.mapItems).map (·.1)) = .error e) :=
   paneTryStruct_interrupt_iff E info fs hlen hnl hnd hT v
 
 /-- `Offends`, spelled out (it is the disjunction used in `C15_struct_verdict`) -/
@@ -272,7 +273,8 @@ theorem C15_struct_verdict_ok (info : PaneInfo) (fs : List (Val → Outcome Val)
     paneTryStruct E info fs v = .ok o ↔
       (∀ pre kv post, v.mapItems = pre ++ kv :: post → ¬ Offends info fs pre kv) ∧
       ∃ all final, fillDefaults E (Facts.structDefaultCalled == some true) info.fields
-          (structSpec info fs v.mapItems) = some all ∧ runHook E info all = .ok final ∧
+          (structSpec info fs v.mapItems) = some all ∧
+        runHook E info all ((structSpec info fs v.mapItems).map (·.1)) = .ok final ∧
         o = mkObj info final ((structSpec info fs v.mapItems).map (·.1)) :=
   paneTryStruct_ok_iff E info fs hlen hnl v o
 
@@ -403,7 +405,8 @@ theorem C15_make_unchecked_pos (info : PaneInfo) (vals : List Val) (o : Val) :
     makeUncheckedPos E info vals = .ok o ↔
       ∃ all final,
         fillDefaults E true info.fields (((posFields info).zip vals).map fun ((f, _), x) => (f.name, x)) = some all ∧
-        runHook E info all = .ok final ∧ o = mkObj info final ((posNames info).take vals.length) :=
+        runHook E info all ((posNames info).take vals.length) = .ok final ∧
+        o = mkObj info final ((posNames info).take vals.length) :=
   makeUncheckedPos_ok_iff E info vals o
 
 /-! ## Positional bounds fixed at class creation -/
